@@ -389,7 +389,7 @@ func (e *Env) index(n *SNode) SV {
 	v := *base.V
 	switch u := v.T.Underlying().(type) {
 	case *types.Slice:
-		l := &Loc{Kind: LElem, Ref: v.L[0], Idx: B.Add(v.L[1], idx), T: u.Elem()}
+		l := &Loc{Kind: LElem, Ref: v.L[0], Idx: B.Index(v.L[1], idx), T: u.Elem()}
 		return svValue(x.load(e.st, l, u.Elem()))
 	case *types.Array:
 		if LayoutOf(v.T).Leaves[0].Role == "array" {
